@@ -39,6 +39,15 @@ func runC04Case(c *Ctx, kind string, input []rune) {
 
 func propC04(c *Ctx) {
 	kinds := append([]string{"g", "e", "m"}, csvKinds(c)...)
+	// characters that tempt a "clean-up" at the edges of the input: byte order mark, NUL, line and paragraph
+	// separators, U+0100 (first character above the direct table), the last BMP characters
+	for _, k := range kinds {
+		for _, x := range []rune{0xfeff, 0, 0x2028, 0x2029, 0x100, 0xff, 0xfffe, 0xffff, 0x10000, 0x85, 0xa0} {
+			for _, in := range [][]rune{{x}, {x, 'a'}, {'a', x}, {x, 'a', x}, {x, x}, {' ', x, ' '}, {x, '1', '.', '5'}, {'"', x, '"'}} {
+				runC04Case(c, k, in)
+			}
+		}
+	}
 	full, red := 3, 4
 	if c.Thorough {
 		full, red = 4, 5
